@@ -66,13 +66,15 @@ def _run(ctx, interval, timeout, rt, ins):
     return real
 
 
-def _equal_time_hazard(ins, model_out, expiries):
+def _equal_time_hazard(ins, model_out, expiries, rt=0):
     """responses/conn changes that land exactly on a model deadline or beat instant are order-dependent"""
     times = set(expiries)
     for ev in model_out:
         k, *a = ev.split()
         if k in ("reset", "beat", "resetDone"):
             times.add(int(a[-1]))
+        if k == "reset":
+            times.add(int(a[-1]) + rt)        # the instant at which that reset completes
     return any(i[0] in ("resp", "conn", "stop", "finish") and i[-1] in times for i in ins)
 
 
@@ -108,7 +110,7 @@ def run(ctx, deep=False):
         if model is not None:
             tr, _, ex = model.partition(" | ")
             m = tr.split(" ; ") if tr else []
-            hazard = _equal_time_hazard(ins, m, [int(x) for x in ex.split()])
+            hazard = _equal_time_hazard(ins, m, [int(x) for x in ex.split()], rt)
         if hazard:
             ctx.count("skipped:input-coincides-with-deadline")
             continue
